@@ -756,6 +756,83 @@ Proof.
   exact (Hfresh t1 u Ht1 Hu Eu).
 Qed.
 
+(* ------------------------------------------------------------------ transaction ordinals survive *)
+
+(* the non-placeholder transactions of a list, each with the tx_index Block::generate gives it *)
+Fixpoint kept_idx (i : N) (l : list tx) : list (N * tx) :=
+  match l with
+  | [] => []
+  | t :: r => (if is_spv t then [] else [(i, t)]) ++ kept_idx (i + weight t) r
+  end.
+
+(* merging placeholders adds their replacement counts: indices of everything else are unchanged *)
+Lemma merge_loop_kept_idx : forall fuel l l', merge_loop fuel l = Ok l' ->
+  forall i, kept_idx i l' = kept_idx i l.
+Proof.
+  induction fuel as [|f IH]; intros l l' H i; destruct l as [|x [|y t]]; cbn [merge_loop] in H;
+    try discriminate; try (inversion H; reflexivity).
+  destruct (mergeable x y) eqn:Hm.
+  - destruct (2 ^ 32 <=? 2 * t_repl x); [discriminate|].
+    destruct (t_hfs x) as [a|]; [|discriminate]. destruct (t_hfs y) as [b|]; [|discriminate].
+    rewrite (IH _ _ H i).
+    unfold mergeable in Hm. apply andb_true_iff in Hm as [Hm Hr]. apply andb_true_iff in Hm as [Sx Sy].
+    apply N.eqb_eq in Hr.
+    cbn [kept_idx]. rewrite merged_is_spv, Sx, Sy. cbn [app].
+    unfold weight. rewrite merged_is_spv, Sx, Sy. cbn [merged t_repl].
+    f_equal. lia.
+  - destruct (merge_loop f t) as [r| |s] eqn:Hr; cbn [bind] in H; try discriminate.
+    inversion H; subst. cbn [kept_idx]. rewrite (IH _ _ Hr). reflexivity.
+Qed.
+
+Lemma kept_idx_pruned : forall ks l i, no_spv l ->
+  kept_idx i (map (prune1 ks) l) = filter (fun p => touches ks (snd p)) (kept_idx i l).
+Proof.
+  intros ks l. induction l as [|x t IH]; intros i Hs; [reflexivity|].
+  inversion Hs as [|? ? Sx St]; subst. cbn [map kept_idx]. rewrite Sx.
+  assert (W : weight x = 1) by (unfold weight; rewrite Sx; reflexivity).
+  destruct (touches ks x) eqn:Tx.
+  - rewrite (prune1_kept _ _ Tx). rewrite Sx, W. cbn [app filter snd]. rewrite Tx. f_equal. apply IH. exact St.
+  - rewrite (prune1_omitted _ _ Tx).
+    change (is_spv (placeholder x)) with true. change (weight (placeholder x)) with 1. cbv iota.
+    cbn [app filter snd]. rewrite Tx. rewrite W. apply IH. exact St.
+Qed.
+
+(* in a full block every transaction sits at its position *)
+Lemma kept_idx_full : forall l i, no_spv l -> map fst (kept_idx i l) = tx_indices i l /\ map snd (kept_idx i l) = l.
+Proof.
+  induction l as [|x t IH]; intros i Hs; [split; reflexivity|].
+  inversion Hs as [|? ? Sx St]; subst. cbn [kept_idx tx_indices]. rewrite Sx. cbn [app map fst snd].
+  destruct (IH (i + weight x) St) as [A B]. rewrite A, B. split; reflexivity.
+Qed.
+
+(* the wire trip and Block::generate do not change types and replacement counts *)
+Lemma kept_idx_rehash_clear : forall l i,
+  map fst (kept_idx i (map rehash (map clear_hfs l))) = map fst (kept_idx i l).
+Proof.
+  induction l as [|x t IH]; intro i; [reflexivity|].
+  cbn [map kept_idx]. rewrite !map_app.
+  change (is_spv (rehash (clear_hfs x))) with (is_spv x).
+  change (weight (rehash (clear_hfs x))) with (weight x).
+  rewrite IH. destruct (is_spv x); reflexivity.
+Qed.
+
+(* every kept transaction has, in the lite block and in the block the client generates, the
+   tx_index it has in the full block (so Block::generate writes the same tx_ordinal into its output
+   slips, and the light wallet derives the right UTXO keys) *)
+Lemma ordinals_preserved : forall b ks l, no_spv (b_txs b) -> lite b ks = Ok l ->
+  kept_idx 0 (b_txs l) = filter (fun p => touches ks (snd p)) (kept_idx 0 (b_txs b)).
+Proof.
+  intros b ks l Hs H. destruct (lite_inv _ _ _ H) as (txs & mr & Hm & _ & Ht & _).
+  rewrite Ht, (merge_loop_kept_idx _ _ _ Hm). apply kept_idx_pruned. exact Hs.
+Qed.
+
+Lemma ordinals_preserved_wire : forall b ks l c, no_spv (b_txs b) -> lite b ks = Ok l -> receive l = Ok c ->
+  map fst (kept_idx 0 (b_txs c)) = map fst (filter (fun p => touches ks (snd p)) (kept_idx 0 (b_txs b))).
+Proof.
+  intros b ks l c Hs H Hc. rewrite (receive_txs _ _ Hc), kept_idx_rehash_clear.
+  rewrite (ordinals_preserved _ _ _ Hs H). reflexivity.
+Qed.
+
 (* ------------------------------------------------------------------ the known classes *)
 
 (* the in-memory lite block: a sibling pair omitted as a whole (the loop merges it, and the merged
